@@ -9,6 +9,7 @@ import contextlib
 import io
 
 import numpy as np
+import sympy
 
 from verifkit.common import canon_hash, short_exc, tb_tail
 from verifkit.gen import specs as G
@@ -30,6 +31,8 @@ EV = ["ode", "jacobian", "diff_jacobian", "grad", "grad_jacobian", "vMat", "even
       "transitionJacobian", "transitionMean", "transitionVar"]
 MUTATORS = ["add_transition", "add_event", "add_event_tr", "birth_o", "birth_d", "death", "add_ode", "new_param", "new_derived"]
 KINDS = MUTATORS + ["set_param"]
+SYM = ["get_ode_eqn", "get_jacobian_eqn", "get_grad_eqn", "get_StateChangeMatrix", "get_EventRateVector", "get_pureOdeVector",
+       "get_TransitionJacobian"]
 
 
 def plan(tier):
@@ -39,7 +42,9 @@ def plan(tier):
 
 def floors(tier):
     f = {"nontrivial": 60, "counter:steps": 800, "counter:evaluator_observations": 8000, "counter:pairs_distinct_in_case": 500,
-         "counter:ref_crosschecks": 800, "counter:others_evaluated_first": 200}
+         "counter:ref_crosschecks": 800, "counter:others_evaluated_first": 200,
+         "counter:partial_observation_steps": 200, "counter:steps_not_starting_with_ode": 400, "counter:mutations_via_list_setter": 100,
+         "counter:symbolic_getter_observations": 1000}
     for k in KINDS:
         f["counter:mut_" + k] = 30
     for k in KINDS:
@@ -57,9 +62,27 @@ def rate(rng, S, names):
                        "%s*exp(-0.1*%s)" % (p, s), "%s*%s*(1+0.5*cos(t))" % (p, s)])
 
 
-def apply(m, op):
+def apply(m, op, via_setter=False):
+    """Apply one definition operation; with via_setter the same process is entered through the list-valued property
+    (transition_list / event_list / birth_death_list / ode_list = [...]) instead of the add_* method."""
     from pygom import Event, Transition
     k = op[0]
+    if via_setter:
+        if k == "add_transition":
+            m.transition_list = [Transition(origin=op[1], destination=op[2], equation=op[3], transition_type="T", magnitude=op[4])]
+        elif k in ("add_event", "add_event_tr"):
+            m.event_list = [Event(rate=op[3], transition_list=[Transition(origin=op[1], destination=op[2], transition_type="T", magnitude=op[4])])]
+        elif k == "birth_o":
+            m.birth_death_list = [Transition(origin=op[1], equation=op[3], transition_type="B", magnitude=op[4])]
+        elif k == "birth_d":
+            m.birth_death_list = Transition(destination=op[1], equation=op[3], transition_type="B", magnitude=op[4])
+        elif k == "death":
+            m.birth_death_list = [Transition(origin=op[1], equation=op[3], transition_type="D", magnitude=op[4])]
+        elif k == "add_ode":
+            m.ode_list = [Transition(origin=op[1], equation=op[3], transition_type="ODE")]
+        else:
+            raise KeyError(k)
+        return
     if k == "add_transition":
         m.add_transition(Transition(origin=op[1], destination=op[2], equation=op[3], transition_type="T", magnitude=op[4]))
     elif k == "add_event":
@@ -106,9 +129,9 @@ def fresh(defn):
     return m
 
 
-def evalall(m, x, t):
+def evalall(m, x, t, order=None):
     out = {}
-    for e in EV:
+    for e in (order if order is not None else EV):
         try:
             out[e] = np.asarray(getattr(m, e)(np.array(x), t), dtype=float).ravel()
         except Exception as ex:
@@ -188,9 +211,12 @@ def run_case(rng, idx, tier, lane, ctx):
             else:
                 o, d = rng.sample(S, 2)
                 op = [kind, o, d, rate(rng, S, names), str(rng.choice([1, 1, 2]))]
-                apply(m, op)
+                setter = rng.random() < 0.3
+                apply(m, op, via_setter=setter)
                 defn["ops"].append(op)
-                hist.append(op)
+                hist.append(op + (["via-list-setter"] if setter else []))
+                if setter:
+                    counters["mutations_via_list_setter"] = counters.get("mutations_via_list_setter", 0) + 1
         except Exception as ex:
             wit.append({"what": "mutator raised", "mutator": kind, "error": short_exc(ex), "tb": tb_tail(ex), "history": hist[-6:]})
             break
@@ -203,22 +229,45 @@ def run_case(rng, idx, tier, lane, ctx):
             # they are evaluated BEFORE the live model (recompile flags must be per model, not shared state)
             fm = fresh(defn)
             order = rng.random()
+            # the live model's evaluators are observed in a random order (a recompile of one evaluator must not depend on another
+            # having been refreshed first) and, in 40 % of the steps, only a random subset is observed, so that the others stay
+            # compiled-but-unobserved across several mutations
+            live_order = rng.sample(EV, len(EV))
+            if rng.random() < 0.4:
+                live_order = live_order[:rng.randint(2, 8)]
+                counters["partial_observation_steps"] = counters.get("partial_observation_steps", 0) + 1
+            if live_order[0] != "ode":
+                counters["steps_not_starting_with_ode"] = counters.get("steps_not_starting_with_ode", 0) + 1
             if order < 0.5:
                 if bystander is not None:
                     evalall(bystander, x, t)
                 b = evalall(fm, x, t)
-                a = evalall(m, x, t)
+                a = evalall(m, x, t, live_order)
                 counters["others_evaluated_first"] += 1
             else:
-                a = evalall(m, x, t)
+                a = evalall(m, x, t, live_order)
                 b = evalall(fm, x, t)
             if bystander is None or rng.random() < 0.3:
                 bystander = fm
-        compiled = set(EV)
+            # symbolic getters of the live model against the fresh model's
+            for getter in rng.sample(SYM, 2):
+                counters["symbolic_getter_observations"] = counters.get("symbolic_getter_observations", 0) + 1
+                try:
+                    ga, gb = getattr(m, getter)(), getattr(fm, getter)()
+                    eq = (ga == gb) or (sympy.Matrix(ga) - sympy.Matrix(gb)).expand().is_zero_matrix
+                except Exception as ex:
+                    eq = None
+                    wit.append({"what": "symbolic getter raised after a mutation", "getter": getter, "error": short_exc(ex), "history": hist[-6:]})
+                if eq is False:
+                    wit.append({"what": "stale symbolic getter: differs from a freshly constructed model with the same definition",
+                                "mutator": kind, "getter": getter, "live": str(ga)[:400], "fresh": str(gb)[:400], "history": hist[-6:]})
+        compiled |= set(live_order)
         spec = op_to_spec(defn)
         ref = RefModel(spec)
         th = [defn["values"][p] for p in defn["params"]]
         for e in EV:
+            if e not in a:      # not observed on the live model in this step
+                continue
             counters["evaluator_observations"] += 1
             if isinstance(b[e], tuple):
                 wit.append({"what": "freshly constructed model cannot evaluate", "evaluator": e, "error": b[e][1], "history": hist[-6:]})
